@@ -202,7 +202,7 @@ class BuildError(Exception):
     pass
 
 
-def build_harness(name, harness_srcs, repo_srcs, extra_flags=(), shim=None, libs=("-lz", "-lselinux", "-lsystemd")):
+def build_harness(name, harness_srcs, repo_srcs, extra_flags=(), shim="shim_time.h", libs=("-lz", "-lselinux", "-lsystemd")):
     """Compile harness + the named /repo/src files (from the CURRENT working tree, base64u.c made
     by the repo's own Makefile rule) with ASan+UBSan in a scratch dir outside /repo and /verif;
     keep only the binary, cached under a hash of everything that went into it."""
@@ -270,7 +270,13 @@ def run_parallel(exe, ops, jobs=None, chunk=None, **kw):
     for part, r in zip(parts, rs):
         if (r.rc != 0 or len(r.lines) < len(part)) and rc == 0:
             rc, err = (r.rc or -1), r.stderr
-            abort_index = len(lines) + len(r.lines)
+            # answers still in the stdio buffer were lost with the abort: re-run the unanswered tail line-buffered
+            # (ops run through run_parallel are independent of each other) to find the op that killed the process
+            tail = part[len(r.lines):]
+            r2 = run_lines(exe, tail, env_extra={"VERIF_LINEBUF": "1"})
+            abort_index = len(lines) + len(r.lines) + min(len(r2.lines), len(tail) - 1)
+            if r2.stderr:
+                err = r2.stderr
         lines += r.lines[:len(part)]
         if len(r.lines) < len(part):
             lines += ["<no-answer>"] * (len(part) - len(r.lines))
@@ -423,3 +429,69 @@ def differential(chk, harness_exe, ops, project=None, label="corr"):
         if a != b:
             diffs.append(i)
     return c, m, diffs
+
+
+def pure_check(chk, ops, oracle, rule, corr_name, harness=("h_pure", ["h_pure.c"], None), sequential=False):
+    """Standard shape of a check on a pure core: proofs, differential run of `ops`, property oracle on the
+    implementation's answers.  oracle(op, answer) -> (why | None, nontrivial_key | None, finding_key | None)."""
+    name, srcs, objs = harness
+    proof_ok = chk.proofs()
+    exe = build_harness(name, srcs, objs or PURE_OBJS)
+    if sequential:
+        c = run_lines(exe, ops); c.abort_index = len(c.lines) if c.rc else None
+        drv = chk.driver()
+        m = run_lines(drv, ops) if drv else None
+        diffs = None if m is None else [i for i in range(len(ops)) if (c.lines[i] if i < len(c.lines) else "<no-answer>") != (m.lines[i] if i < len(m.lines) else "<no-answer>")]
+    else:
+        c, m, diffs = differential(chk, exe, ops)
+    bad = 0
+    nontriv = set()
+    if c.rc != 0:
+        i = c.abort_index if c.abort_index is not None else 0
+        chk.violation("C harness aborted (sanitizer or crash), rc=%d on op: %s\n%s" % (c.rc, ops[min(i, len(ops) - 1)][:200], c.stderr[-1500:]),
+                      ops[:i + 1] if sequential else [ops[min(i, len(ops) - 1)]])
+        bad += 1
+    for i, op in enumerate(ops):
+        line = c.lines[i] if i < len(c.lines) else "<no-answer>"
+        why, key, fkey = oracle(op, line)
+        if why:
+            bad += 1
+            chk.violation("%s fails on the implementation: %s\n op: %s\n answer: %s" % (chk.prop, why, op[:300], line[:300]),
+                          ops[:i + 1] if sequential else [op], key=fkey)
+        elif key is not None:
+            nontriv.add(key)
+    chk.cov["evaluations"] = chk.cov.get("evaluations", 0) + len(ops)
+    chk.cov["distinct_nontrivial"] = chk.cov.get("distinct_nontrivial", 0) + len(nontriv)
+    chk.cov["traces_validated_against_impl"] = chk.cov.get("traces_validated_against_impl", 0) + len(ops)
+    chk.cov["rule"] = rule
+    for i in sorted({0, len(ops) // 3, 2 * len(ops) // 3, len(ops) - 1}):
+        if 0 <= i < len(ops):
+            chk.sample({"op": ops[i][:160], "impl": (c.lines[i] if i < len(c.lines) else "")[:200]})
+    chk.notes["correspondence_diffs"] = None if diffs is None else len(diffs)
+    if (not proof_ok or diffs is None or diffs) and bad == 0:
+        if diffs:
+            i = diffs[0]
+            chk.violation("correspondence broken (%s): model and implementation differ on %d ops; the property oracle found no failing input.\nfirst: %s\n impl: %s\n model: %s"
+                          % (corr_name, len(diffs), ops[i][:200], c.lines[i][:200] if i < len(c.lines) else None, m.lines[i][:200] if i < len(m.lines) else None),
+                          ["# correspondence %s no longer checks" % corr_name] + ([ops[j] for j in diffs[:5]] if not sequential else ops[:i + 1]), no_input=True)
+        elif diffs is None:
+            chk.violation("model driver does not build: " + ensure_lean().log[-1500:], ["# lake build iodmodel failed"], no_input=True)
+        else:
+            chk.violation("proof obligation no longer checks: " + chk.proof_detail,
+                          ["# theorems of Props/%s.lean: %s" % (chk.prop, ", ".join(prop_theorems(chk.prop))), "# " + chk.proof_detail.replace("\n", "\n# ")], no_input=True)
+    return c, m, diffs, bad
+
+
+def pure_replay(chk, path, oracle=None):
+    exe = build_harness("h_pure", ["h_pure.c"], PURE_OBJS)
+    ops = [l.strip() for l in open(path) if l.strip() and not l.startswith("#")]
+    c = run_lines(exe, ops)
+    bad = 1 if c.rc else 0
+    for o, l in zip(ops, c.lines):
+        print(o[:100], "->", l[:200])
+        if oracle and oracle(o, l)[0]:
+            print("   VIOLATES:", oracle(o, l)[0]); bad += 1
+    if c.rc:
+        print(c.stderr[-1500:])
+    chk.cov.update({"evaluations": max(1, len(ops)), "distinct_nontrivial": 0})
+    return 1 if bad else 0
